@@ -786,6 +786,8 @@ def _argument_key(value):
         return (type(value), tuple(_argument_key(x) for x in value))
     if isinstance(value, _StringLiteral):
         return (_StringLiteral, str(value), value._parse_function)
+    if isinstance(value, _BytesLiteral):
+        return (_BytesLiteral, bytes(value), value._parse_function)
     if isinstance(value, _ByteLiteral):
         return (_ByteLiteral, int(value), value._parse_function)
     return (type(value), value)
@@ -796,8 +798,17 @@ class _StringLiteral(str):
         return self._parse_function(${ctx}_text, _pos)
 
 
+class _BytesLiteral(bytes):
+    def __call__(self, ${ctx}_text, _pos):
+        return self._parse_function(${ctx}_text, _pos)
+
+
 def _wrap_string_literal(string_value, parse_function):
-    result = _StringLiteral(string_value)
+    # (The literal b"ab" is the bytes value b'ab', not the text "b'ab'".)
+    if isinstance(string_value, bytes):
+        result = _BytesLiteral(string_value)
+    else:
+        result = _StringLiteral(string_value)
     result._parse_function = parse_function
     return result
 
@@ -840,7 +851,7 @@ def _run(${ctx}text, pos, start, fullparse):
         # called: the same text may be matched in different ways (a grammar that
         # extends another one may skip ignored tokens after it).
         key = result
-        if key[1].__class__ in (_StringLiteral, _ByteLiteral):
+        if key[1].__class__ in (_StringLiteral, _BytesLiteral, _ByteLiteral):
             key = (key[0], key[1]._parse_function, key[2])
 
         # The arguments of a parameterised rule are part of the key, and they
@@ -1105,6 +1116,7 @@ from $super_module import (
     Postfix,
     Prefix,
     _ByteLiteral,
+    _BytesLiteral,
     _Context,
     _IGNORECASE,
     _Metadata,
